@@ -127,7 +127,7 @@ func (d *Downstream) closeWithError(ctx context.Context, cause error) (err error
 		}
 	}
 
-	resp, err := d.wireConn.SendDownstreamCloseRequest(ctx, &message.DownstreamCloseRequest{
+	resp, err := d.currentWireConn().SendDownstreamCloseRequest(ctx, &message.DownstreamCloseRequest{
 		StreamID: d.ID,
 	})
 	if err != nil {
@@ -187,7 +187,7 @@ func (d *Downstream) ReadMetadata(ctx context.Context) (*DownstreamMetadata, err
 	case <-ctx.Done():
 		return nil, ctx.Err()
 	case meta := <-d.metadataCh:
-		if err := d.wireConn.SendDownstreamMetadataAck(ctx, &message.DownstreamMetadataAck{
+		if err := d.currentWireConn().SendDownstreamMetadataAck(ctx, &message.DownstreamMetadataAck{
 			RequestID:    meta.RequestID,
 			ResultCode:   message.ResultCodeSucceeded,
 			ResultString: "OK",
@@ -518,6 +518,13 @@ func (d *Downstream) assignUpstreamInfoAlias(info *message.UpstreamInfo) map[uin
 	}
 }
 
+// currentWireConn returns the wire connection the stream is attached to. resume replaces it under mu.
+func (d *Downstream) currentWireConn() *wire.ClientConn {
+	d.mu.RLock()
+	defer d.mu.RUnlock()
+	return d.wireConn
+}
+
 func (d *Downstream) isClosed() bool {
 	select {
 	case <-d.ctx.Done():
@@ -535,16 +542,19 @@ func (d *Downstream) resume(parentConn *Conn) error {
 	if !d.state.Is(streamStatusResuming) {
 		return fmt.Errorf("invalid state want[%v] but[%v]", streamStatusResuming, d.state)
 	}
-	d.wireConn = parentConn.wireConn
+	wireConn := parentConn.currentWireConn()
+	d.mu.Lock()
+	d.wireConn = wireConn
+	d.mu.Unlock()
 
 	var resErr error
 	retry.Do(func() (end bool) {
-		dpsCh, err := d.wireConn.SubscribeDownstreamChunk(d.ctx, d.idAlias, d.Config.QoS)
+		dpsCh, err := wireConn.SubscribeDownstreamChunk(d.ctx, d.idAlias, d.Config.QoS)
 		if err != nil {
 			resErr = fmt.Errorf("failed to SubscribeDownstreamChunk: %w", err)
 			return true
 		}
-		ackCompCh, err := d.wireConn.SubscribeDownstreamChunkAckComplete(d.ctx, d.idAlias)
+		ackCompCh, err := wireConn.SubscribeDownstreamChunkAckComplete(d.ctx, d.idAlias)
 		if err != nil {
 			resErr = fmt.Errorf("failed to SubscribeDownstreamChunkAckComplete: %w", err)
 			return true
@@ -556,7 +566,7 @@ func (d *Downstream) resume(parentConn *Conn) error {
 			return true
 		}
 
-		resp, err := d.wireConn.SendDownstreamResumeRequest(d.ctx, &message.DownstreamResumeRequest{
+		resp, err := wireConn.SendDownstreamResumeRequest(d.ctx, &message.DownstreamResumeRequest{
 			StreamID:             d.ID,
 			DesiredStreamIDAlias: d.idAlias,
 		})
